@@ -32,10 +32,18 @@ class Outcome:
     return self.qbytes is not None
 
 
-def setup_quantizer(model_bytes, recipe):
-  """Quantizer with the recipe applied; returns (qt, accepted, refused)."""
+def setup_quantizer(model_bytes, recipe, prior=None):
+  """Quantizer with the recipe applied; returns (qt, accepted, refused).
+
+  prior: name of a shipped calibration-free recipe that is loaded and quantized
+  with on the same Quantizer first (an earlier use of the object).
+  """
   qt = quantizer_mod.Quantizer(model_bytes)
   accepted, refused = [], []
+  if prior:
+    qt.load_quantization_recipe(copy.deepcopy(R.shipped_recipes()[prior]))
+    core.call(qt.quantize)
+    qt.load_quantization_recipe([])
   if recipe['kind'] == 'shipped':
     qt.load_quantization_recipe(copy.deepcopy(R.shipped_recipes()[recipe['name']]))
     return qt, accepted, refused
@@ -62,7 +70,7 @@ def run(case, stop_after=None):
   out = Outcome()
   mspec = case['model']
   out.model_bytes = G.build(mspec)
-  qt, out.accepted, out.refused = setup_quantizer(out.model_bytes, case['recipe'])
+  qt, out.accepted, out.refused = setup_quantizer(out.model_bytes, case['recipe'], case.get('prior'))
   out.qt = qt
   out.recipe = qt.get_quantization_recipe()
   if not out.recipe:
